@@ -158,6 +158,11 @@ def _check(case, cfg, files_raw, paths, d, res, ctx) -> None:  # noqa: ANN001
         else:
             ok, _ = drv.guard(res, "load_traces", t.load_traces, include_last_profiler_step=cfg["inc_last"],
                               use_multiprocessing=cfg["mp"], use_memory_profiling=cfg["mem_prof"])
+            if ok and core.rng("c01twice", res.key).random() < 0.3:
+                # asking a loaded object to load again changes nothing (TraceAnalysis(...) followed by .t.load_traces())
+                ok, _ = drv.guard(res, "load_traces (second call)", t.load_traces, include_last_profiler_step=cfg["inc_last"],
+                                  use_multiprocessing=cfg["mp"], use_memory_profiling=cfg["mem_prof"])
+                res.counters["loads_asked_twice"] += 1
     if not ok:
         return
     if sorted(t.get_ranks()) != sorted(models):
